@@ -11,7 +11,7 @@
 From Coq Require Import Reals.
 From Coquelicot Require Import Coquelicot.
 From SpdVerif Require Import Base.Rx Base.CxPM Model.PMParams Model.PMLimit Gen.PMIntegrand Gen.PMSimpson Proofs.C06_algebra Proofs.C06_swap
-  Proofs.C06_defined Proofs.C05_closure Proofs.C05_limit Proofs.C05_sinc Proofs.C05_simpson_tac Proofs.C05_simpson Proofs.C05_waistlimit.
+  Proofs.C06_defined Proofs.C05_closure Proofs.C05_limit Proofs.C05_sinc Proofs.C05_simpson_tac Proofs.C05_simpson Proofs.C05_waistlimit Proofs.C05_waistlimit_walkoff.
 Local Open Scope R_scope.
 
 Theorem C05_integrand_is_closure : forall p z, pm_integrand p z = pm_closure_of p z.
@@ -51,6 +51,10 @@ Theorem C05_delta_k_bookkeeping : forall p,
   pm_k_i p = signum (p_dirz_i p) * (p_n_i p * p_omega_i p / 299792458).
 Proof. exact delta_k_bookkeeping. Qed.
 
+(* the walk-off coefficient n of the closure (A6 = i n (1 + z)) is (L/2) tan(rho) for every walk-off angle, positive or negative *)
+Theorem C05_walkoff_length : forall p, pm_n p = 0.5 * p_L p * tan (p_rho p).
+Proof. exact walkoff_length. Qed.
+
 (* clause 2: zero-diffraction closed form of the closure (wx = Wx^2, wy = Wy^2, ss = Ws_SQ, si = Wi_SQ, nn = (L/2) tan rho):
    integrand(z) = apod(z) (4 / sqrt(Sigma_x Sigma_y)) exp(-a^2 (1+z)^2) Cexp(i (psi_h + ee + ff z)),  a^2 = nn^2 (ss + si) / Sigma_y;
    for round beams Sigma_x = Sigma_y = Sigma = Wp^2 Ws^2 + Wp^2 Wi^2 + Ws^2 Wi^2 *)
@@ -86,6 +90,14 @@ Theorem C05_closure_waist_limit : forall apod wx wy ss si dls dli cs ci ds di m 
   filterlim (scaled apod wx wy ss si dls dli cs ci ds di m nn psi_h ee ff z) (Rbar_locally p_infty)
             (locally (plane_wave_value apod wx wy ss si psi_h ee ff z)).
 Proof. exact waist_limit. Qed.
+
+(* ... and with the walk-off length scaled like the waists (fixed walk-off-to-waist ratio) the limit is the FULL zero-diffraction closed form,
+   walk-off Gaussian included:  s^4 closure(waists x s, n x s) -> apod (4/sqrt(Sx Sy)) exp(-a^2 (1+z)^2) e^{i(psi0 + ff z)} *)
+Theorem C05_closure_waist_limit_walkoff : forall apod wx wy ss si dls dli cs ci ds di m nn psi_h ee ff z,
+  0 < ss -> 0 < si -> 0 <= wx -> 0 <= wy ->
+  filterlim (scaledW apod wx wy ss si dls dli cs ci ds di m nn psi_h ee ff z) (Rbar_locally p_infty)
+            (locally (plane_wave_valueW apod wx wy ss si nn psi_h ee ff z)).
+Proof. exact waist_limitW. Qed.
 
 (* clause 3: the sinc integral *)
 Theorem C05_sinc : forall psi ff,
@@ -149,10 +161,12 @@ Print Assumptions C05_fiber_coupling_form.
 Print Assumptions C05_collinear_reduction.
 Print Assumptions C05_collinear_coefficients.
 Print Assumptions C05_delta_k_bookkeeping.
+Print Assumptions C05_walkoff_length.
 Print Assumptions C05_zero_diffraction_partial.
 Print Assumptions C05_zero_diffraction_modulus_partial.
 Print Assumptions C05_waist_limit.
 Print Assumptions C05_closure_waist_limit.
+Print Assumptions C05_closure_waist_limit_walkoff.
 Print Assumptions C05_sinc.
 Print Assumptions C05_plane_wave_limit_partial.
 Print Assumptions C05_walkoff_peak_partial.
